@@ -1,6 +1,6 @@
 """Which units decide which property (DESIGN.md sections 1, 5)."""
 
-VERUS_UNITS = ['U-FMT', 'U-REACH', 'U-COMPACTAS', 'U-SANITY', 'U-RESOLVE', 'U-CONTAINS', 'U-CALLS', 'U-DESCR', 'U-DERIVES', 'U-MIXED', 'U-BUILDERS']
+VERUS_UNITS = ['U-FMT', 'U-REACH', 'U-COMPACTAS', 'U-SANITY', 'U-RESOLVE', 'U-CONTAINS', 'U-CALLS', 'U-DESCR', 'U-DERIVES', 'U-MIXED', 'U-BUILDERS', 'U-SUBST']
 
 PROPS = {
     'C15': {
@@ -108,14 +108,14 @@ PROPS = {
     },
     'C16': {
         'level': 'proof',
-        'verus': ['U-BUILDERS', 'U-DERIVES'],
+        'verus': ['U-BUILDERS', 'U-DERIVES', 'U-SUBST'],
         'kani': [],
         'trusted_base': ['Verus 0.2026.09.13, Z3, rustc 1.98.1'],
         'assumptions': [
             'ASSUMED std contracts: HashSet::extend(iter) = union with the items of the iterator; HashMap::entry(k).or_default(); Derives::default() = two empty sets; HashSet / HashMap over opaque syn keys as mathematical set / map',
         ],
         'not_covered': [
-            'the second sentence of C16 (substitute insert / insert-if-absent / extend, absolute-path and generic-form errors): substitutes.rs is syn::Path surgery',
+            'of the second sentence of C16: TypeSubstitutes::extend (generic iterator loop), which insertions are rejected and with which error kind, and that generic arguments of the source path are ignored (parse_path_substitution / absolute_path: syn::Path surgery, opaque here)',
             'flatten_recursive_derives (how the recursive registrations reach the descendants): syn + HashMap + iterator chains',
         ],
     },
